@@ -210,7 +210,10 @@ def gen_oplist(r, acc, n_ops=None, dma_p=0.35):
             ncores = 2 if acc == "Ethos_U65_512" else 1
             weights, biases = [], []
             from_buf = bool(weight_bufs) and r.random() < 0.5  # one region per operation: WEIGHT_REGION / SCALE_REGION are single registers
-            for core in range(ncores):
+            n_ranges = ncores
+            if ncores == 2 and r.random() < 0.3:
+                n_ranges = 1  # an operation that gives the second core nothing to do (e.g. a single output channel)
+            for core in range(n_ranges):
                 if from_buf:
                     wb = r.choice(weight_bufs)
                     n = wb[2] // 2 // 16 * 16
@@ -319,3 +322,95 @@ def extents(wl):
         for w in d.get("weights", []) + d.get("biases", []):
             ext[w[0]] = max(ext[w[0]], w[1] + w[2])
     return {k: round_up(v, 16) + 64 for k, v in ext.items()}
+
+
+# ----------------------------------------------------------------------------------------------- single operations (C15)
+def gen_single_op(r, acc):
+    """One operation with a wide range of shapes / kernels / element types / activations, for the block-configuration query:
+    the legality of an offered configuration depends on sizes a shared small address pool never reaches."""
+    pool = Pool(r, regions=(1,))
+    kind = r.choice(["conv", "conv", "dw", "pool", "ew", "ew", "ew"])
+    dt = r.choice(["int8", "int8", "uint8", "int16"])
+    h = r.choice([1, 1, 2, 3, 5, 8, 8, 13, 16, 31, 40])
+    w = r.choice([1, 2, 3, 4, 7, 8, 8, 16, 17, 33, 64])
+    c = r.choice([1, 2, 3, 4, 7, 8, 16, 16, 24, 32, 33, 48, 64, 100, 104, 128, 200, 256, 320])
+    layouts = ["NHWC", "NHCWB16"]
+    act = dict(type="NONE")
+    ax = r.random()
+    if ax < 0.25:
+        act = dict(type="NONE", min=r.choice([None, 0.0]), max=r.choice([None, 6.0]))
+    elif ax < 0.55 and DT_BITS[dt] == 8:
+        act = dict(type="TABLE_LOOKUP", lut=r.randrange(8))
+    q = lambda t: rand_q(r, t)  # noqa: E731
+    if kind == "ew":
+        sub = r.choice(["ADD", "SUB", "MUL", "MIN", "MAX", "ABS", "LRELU", "ADD", "MUL", "CLZ", "SHL", "SHR"])
+        if sub in ("CLZ", "SHL", "SHR"):
+            dt = "int32"
+            act = dict(type="NONE")
+        elif r.random() < 0.1:
+            dt = "int32"
+            act = dict(type="NONE")
+            sub = r.choice(["ADD", "SUB", "MUL"])
+        shape = (h, w, c)
+        ifm_b = pool.fm(shape, r.choice(layouts), dt, reuse_p=0.0)
+        ofm_b = pool.fm(shape, r.choice(layouts), dt, reuse_p=0.0)
+        op = dict(t="ew", sub=sub, ifm=fm_desc(ifm_b, q(dt)), ofm=fm_desc(ofm_b, q(dt)), act=act, block_index=r.randrange(1000))
+        if sub not in ("ABS", "LRELU", "CLZ"):
+            m = r.random()
+            if m < 0.4:
+                q2 = q(dt)
+                lo, hi = DT_RANGE[dt]
+                qv = r.randint(max(lo, -30000), min(hi, 30000))
+                op["scalar"] = float((qv - q2[1]) * q2[0])
+                op["ifm2"] = dict(dt=dt, region=0, shape=[1, 1, 1], layout="NHWC", tiles=[1, 0, 1, [0, 0, 0, 0]], q=q2, buf=-1)
+            else:
+                s2 = r.choice([(1, 1, c), (1, w, c), (h, 1, 1), (1, 1, 1), shape, shape])
+                i2 = pool.fm(s2, r.choice(layouts) if s2 == shape else "NHWC", dt, reuse_p=0.0)
+                op["ifm2"] = fm_desc(i2, q(dt))
+                op["reversed"] = False
+        return dict(acc=acc, ops=[op])
+    k = r.choice([(1, 1), (1, 1), (3, 3), (3, 3), (1, 3), (3, 1), (2, 2), (5, 5), (7, 7), (1, 7), (8, 8), (4, 3)])
+    dil = r.choice([(1, 1), (1, 1), (1, 1), (2, 2), (2, 1), (1, 2)]) if kind != "pool" else (1, 1)
+    st = r.choice([(1, 1), (1, 1), (2, 2), (1, 2), (2, 1), (3, 3)])
+    up = r.choice([None, None, None, "NEAREST", "TRANSPOSE"]) if kind in ("conv", "pool") else None
+    if up:
+        st = (1, 1)
+    kw_e, kh_e = (k[0] - 1) * dil[0] + 1, (k[1] - 1) * dil[1] + 1
+    uf = 2 if up else 1
+    pad = [0, 0, 0, 0]
+    if r.random() < 0.5:
+        pad = [kh_e // 2, kw_e // 2, (kh_e - 1) // 2, (kw_e - 1) // 2]
+    oh = (h * uf + pad[0] + pad[2] - kh_e) // st[1] + 1
+    ow = (w * uf + pad[1] + pad[3] - kw_e) // st[0] + 1
+    if oh < 1 or ow < 1:
+        return gen_single_op(r, acc)
+    ifm_b = pool.fm((h, w, c), r.choice(layouts), dt, reuse_p=0.0)
+    if kind == "pool":
+        sub = r.choice(["MAX", "AVERAGE", "AVERAGE", "REDUCE_SUM"])
+        if sub == "REDUCE_SUM":
+            k, st, pad, up = (1, 1), (1, 1), [0, 0, 0, 0], None
+            if ifm_b["layout"] != "NHWC":  # documented restriction of the two-core accelerator; kept for all
+                ifm_b = pool.fm((h, w, c), "NHWC", dt, reuse_p=0.0)
+            ofm_b = pool.fm((h, w, 1), r.choice(layouts), r.choice([dt, "int32"]), reuse_p=0.0)
+            return dict(acc=acc, ops=[dict(t="pool", sub=sub, ifm=fm_desc(ifm_b, q(dt)), ofm=fm_desc(ofm_b, q(ofm_b["dt"])),
+                                           kernel=[1, 1, 1, 1, 1, 1], pad=pad, act=dict(type="NONE"), block_index=r.randrange(1000))])
+        if k[0] * k[1] > 64 or max(k) > 8 and sub == "AVERAGE":
+            k = (2, 2)
+        ofm_b = pool.fm((oh, ow, c), r.choice(layouts), dt, reuse_p=0.0)
+        d = dict(t="pool", sub=sub, ifm=fm_desc(ifm_b, q(dt)), ofm=fm_desc(ofm_b, q(dt)), kernel=[k[0], k[1], st[0], st[1], 1, 1], pad=pad,
+                 act=act, block_index=r.randrange(1000))
+        if up:
+            d["up"] = up
+        return dict(acc=acc, ops=[d])
+    dw = kind == "dw"
+    oc = c if dw else r.choice([1, 3, 8, 16, 24, 32, 64, 100, 128, 256])
+    ofm_b = pool.fm((oh, ow, oc), r.choice(layouts), dt, reuse_p=0.0)
+    ncores = 2 if acc == "Ethos_U65_512" else 1
+    weights = [[0, 1024 * i, 256] for i in range(ncores)]
+    biases = [[0, 8192 + 1024 * i, 160] for i in range(ncores)]
+    d = dict(t="dw" if dw else "conv", ifm=fm_desc(ifm_b, q(dt)), ofm=fm_desc(ofm_b, q(dt)), kernel=[k[0], k[1], st[0], st[1], dil[0], dil[1]],
+             pad=pad, weights=weights, biases=biases, act=act, traversal=r.choice(["DEPTH_FIRST", "PART_KERNEL_FIRST"]), block_index=r.randrange(1000),
+             rounding=r.choice(["TFL", "NATURAL", "TRUNCATE"]))
+    if up:
+        d["up"] = up
+    return dict(acc=acc, ops=[d])
